@@ -16,7 +16,18 @@ def witness_pipe_in_path(laze):
     p = ninja_parse.parse(r["ninja"].decode("utf-8", "replace"))
     return any(cl == "output-produced-twice" for cl, _, _ in mc.wf_manifest(p, []))
 
-KNOWN = {"K06:pipe-in-path": witness_pipe_in_path}
+def witness_same_stem(laze):
+    """x.c and x.cpp compiled by rules of one NAME (declared for the two extensions in two contexts): the object name is
+    made of the stem and the hash of the named rule, so both sources claim one object"""
+    from .. import directed, e2e, ninja_parse
+    f = directed.base([], [{"name": "app", "sources": ["x.c", "x.cpp"]}],
+                      builders=[{"name": "b0", "rules": [{"name": "CC", "in": "cpp", "out": "o", "cmd": "cc ${CFLAGS} ${X} -c ${in} -o ${out}"}]}])
+    r = e2e.run_laze(laze, f, {}, info=False)
+    if r["rc"] != 0 or r["ninja"] is None: return False
+    p = ninja_parse.parse(r["ninja"].decode("utf-8", "replace"))
+    return any(cl == "output-produced-twice" for cl, _, _ in mc.wf_manifest(p, []))
+
+KNOWN = {"K06:pipe-in-path": witness_pipe_in_path, "K06:same-stem-same-rule-name": witness_same_stem}
 
 def run(rep, tier, seed, rng):
     core.proof_step(rep, "C06", clean=(tier == "thorough"))
